@@ -557,6 +557,18 @@ class Interp:
             elif r is not None:
                 return r
         r = self.builtin_models(cs, args)
+        if r is None:
+            # an unmodelled callee that receives `&mut` access to a concrete value may have changed it: the value is unknown from
+            # here on (otherwise an evaluation would silently keep the pre-call state — `list.dedup_by(..)`, `map.retain(..)`)
+            for a in args:
+                if a.k == "ref" and _is_place(a.extra):
+                    try:
+                        slot = _Slot(*_resolve_place(a.extra, getattr(self, "_env", {})))
+                        cur = slot.get("slot")
+                        if cur is not None and cur.k in ("list", "str", "iter", "int", "bool", "tuple", "adt") and not (cur.k == "adt" and cur.extra and cur.extra[0] in ("closure", "coroutine")):
+                            slot["slot"] = UNKNOWN
+                    except Exception:
+                        pass
         return r if r is not None else fb
 
     def builtin_models(self, cs, args):
@@ -897,6 +909,15 @@ class Interp:
                         kx = x.deref()
                     elif m_ == "dedup_by_key" and len(args) > 1:
                         kx = self.call_closure(cs, args[1], [Val("ref", x, None)]).deref()
+                    elif m_ == "dedup_by" and len(args) > 1:
+                        if out_:
+                            same = self.call_closure(cs, args[1], [Val("ref", x, None), Val("ref", out_[-1], None)]).deref()
+                            if same.k != "bool":
+                                return None
+                            if same.v:
+                                continue
+                        out_.append(x)
+                        continue
                     else:
                         return None
                     if kx.k not in ("int", "str", "char", "variant", "bool"):
@@ -1292,6 +1313,7 @@ class Interp:
         _FRAME_SEQ[0] += 1
         self.fid = _FRAME_SEQ[0]
         _FRAMES[self.fid] = env
+        self._env = env
         if len(_FRAMES) > 4000:
             for k_ in sorted(_FRAMES)[:2000]:
                 _FRAMES.pop(k_, None)
